@@ -349,41 +349,38 @@ func mergeIgnoresEmptyOperand(c *Ctx) {
 	if fn == nil {
 		return
 	}
-	var operand *ssa.Parameter
-	if len(fn.Params) >= 2 {
-		operand = fn.Params[1]
+	// the operand: a parameter that is not the receiver — of Merge itself, or of a private helper Merge hands it on to
+	isOperand := func(v ssa.Value) bool {
+		p, ok := v.(*ssa.Parameter)
+		if !ok || p.Parent() == nil || len(p.Parent().Params) == 0 {
+			return false
+		}
+		return p != p.Parent().Params[0] && strings.HasSuffix(TypeStr(p.Type()), "seq.SamplesContainer")
 	}
-	if operand == nil {
-		return
+	fieldOfOperand := func(v ssa.Value, field string) bool {
+		l, ok := v.(*ssa.UnOp)
+		if !ok {
+			return false
+		}
+		a, ok := l.X.(*ssa.FieldAddr)
+		if !ok || !isOperand(a.X) {
+			return false
+		}
+		_, fld, _, okF := FieldOf(a)
+		return okF && fld == field
 	}
 	n := 0
 	for _, f := range []string{"Min", "Max"} {
-		for _, ld := range InstrsIn(fn, FieldLoad("seq.SamplesContainer", f)) {
-			u := ld.(*ssa.UnOp)
-			fa, ok := u.X.(*ssa.FieldAddr)
-			if !ok || fa.X != ssa.Value(operand) {
-				continue
-			}
+		f := f
+		for _, l := range c.P.FindLifted(fn, func(in ssa.Instruction) bool {
+			v, ok := in.(ssa.Value)
+			return ok && fieldOfOperand(v, f)
+		}) {
 			n++
 			guarded := false
-			for _, fact := range FactsAtInstr(ld) {
+			for _, fact := range l.Facts() {
 				bo, isBo := fact.Cond.(*ssa.BinOp)
-				if !isBo {
-					continue
-				}
-				opTotal := func(v ssa.Value) bool {
-					l, ok := v.(*ssa.UnOp)
-					if !ok {
-						return false
-					}
-					a, ok := l.X.(*ssa.FieldAddr)
-					if !ok || a.X != ssa.Value(operand) {
-						return false
-					}
-					_, fld, _, okF := FieldOf(a)
-					return okF && fld == "Total"
-				}
-				if !(opTotal(bo.X) || opTotal(bo.Y)) {
+				if !isBo || !(fieldOfOperand(bo.X, "Total") || fieldOfOperand(bo.Y, "Total")) {
 					continue
 				}
 				switch bo.Op {
@@ -394,9 +391,9 @@ func mergeIgnoresEmptyOperand(c *Ctx) {
 				}
 			}
 			if guarded {
-				c.Site(ld.Pos(), "Merge reads the operand's %s only when the operand has samples", f)
+				c.Site(l.In.Pos(), "Merge reads the operand's %s only when the operand has samples", f)
 			} else {
-				c.Violation("dom:Merge:empty-operand:"+f, ld.Pos(), "SamplesContainer.Merge reads the operand's %s although the operand may hold no samples: a part that only counted not-exists documents (Total == 0, Min == Max == 0) drags the minimum or maximum of the group to 0, and only when it is merged after a part with values — the result depends on the merge order", f)
+				c.Violation("dom:Merge:empty-operand:"+f, l.In.Pos(), "SamplesContainer.Merge reads the operand's %s although the operand may hold no samples: a part that only counted not-exists documents (Total == 0, Min == Max == 0) drags the minimum or maximum of the group to 0, and only when it is merged after a part with values — the result depends on the merge order", f)
 			}
 		}
 	}
